@@ -63,15 +63,21 @@ Section Pool.
       set_prog t [fst (call_of uo ops)] (mon s) = Some m' ->
       pstepR s (LNext t) (mkP m' (upd t (snd (call_of uo ops)) (pcs s)) (evs s))
   | R_join : forall t i ops,
-      pc_at s t = Some (CJoin i ops) -> i < nw -> pc_at s i = Some WDone ->
-      pstepR s (LJoin t) (mkP (mon s) (upd t (CJoin (S i) ops) (pcs s)) (evs s))
+      pc_at s t = Some (CJoin i ops) -> i < nw -> pc_at s i = Some WDone -> joined i (evs s) = false ->
+      pstepR s (LJoin t) (mkP (mon s) (upd t (CJoin (S i) ops) (pcs s)) (evs s ++ [EvJoin t i]))
   | R_stopret : forall t i ops,
       pc_at s t = Some (CJoin i ops) -> nw <= i ->
-      pstepR s (LJoin t) (mkP (mon s) (upd t (CIdle ops) (pcs s)) (evs s ++ [EvStopRet t])).
+      pstepR s (LJoin t) (mkP (mon s) (upd t (CIdle ops) (pcs s)) (evs s ++ [EvStopRet t]))
+  | R_init : forall t,
+      pc_at s t = Some WInit ->
+      pstepR s (LInit t) (mkP (mon s) (upd t WLoop (pcs s)) (evs s ++ [EvInit t]))
+  | R_fault : forall t i ops,
+      pc_at s t = Some (CJoin i ops) -> i < nw -> joined i (evs s) = true ->
+      pstepR s (LJoin t) (mkP (mon s) (upd t (CFault ops) (pcs s)) (evs s ++ [EvFault t i])).
 
   Lemma pstep_sound : forall s l s', pstep s l = Some s' -> pstepR s l s'.
   Proof.
-    intros s l s' H. destruct l as [cl|t|t|t|t]; cbn [C15_Model.pstep] in H.
+    intros s l s' H. destruct l as [cl|t|t|t|t|t]; cbn [C15_Model.pstep] in H.
     - unfold mon_step in H. destruct (step B (mon s) cl) as [m'|] eqn:E; [|discriminate].
       destruct cl as [t|t picks|t|t].
       + inversion H; subst; clear H.
@@ -84,14 +90,14 @@ Section Pool.
         destruct (step_spurious_inv _ _ _ _ _ _ _ E) as (th & c & Hn & Hs & ->). eapply R_spurious; eauto.
       + inversion H; subst; clear H.
         destruct (step_reacquire_inv _ _ _ _ _ _ _ E) as (th & Hn & Hs & Ho & ->). eapply R_reacquire; eauto.
-    - destruct (pc_at s t) as [[| | | | | | |]|] eqn:Hp; try discriminate.
+    - destruct (pc_at s t) as [[| | | | | | | | |]|] eqn:Hp; try discriminate.
       destruct (running (shared (mon s))) eqn:Hr.
       + unfold call in H. destruct (set_prog t [PTake] (mon s)) as [m'|] eqn:E; [|discriminate].
         inversion H; subst. eapply R_load_true; eauto.
       + inversion H; subst. eapply R_load_false; eauto.
-    - destruct (pc_at s t) as [[| |k| | | | |]|] eqn:Hp; try discriminate.
+    - destruct (pc_at s t) as [[| |k| | | | | | |]|] eqn:Hp; try discriminate.
       inversion H; subst. eapply R_exec; eauto.
-    - destruct (pc_at s t) as [[| | | |ops| | |]|] eqn:Hp; try discriminate.
+    - destruct (pc_at s t) as [[| | | |ops| | | | |]|] eqn:Hp; try discriminate.
       destruct ops as [|[k| |] ops]; try discriminate.
       + destruct (Nat.eqb nw 0) eqn:En.
         * inversion H; subst. apply Nat.eqb_eq in En. eapply R_inline; eauto.
@@ -102,11 +108,15 @@ Section Pool.
         apply (R_call s t UStop ops m'); auto. intros k Hk; discriminate.
       + unfold call in H. destruct (set_prog t [PSize] (mon s)) as [m'|] eqn:E; [|discriminate]. inversion H; subst.
         apply (R_call s t USize ops m'); auto. intros k Hk; discriminate.
-    - destruct (pc_at s t) as [[| | | | | | |i ops]|] eqn:Hp; try discriminate.
+    - destruct (pc_at s t) as [[| | | | | | |i ops| |]|] eqn:Hp; try discriminate.
       destruct (i <? nw) eqn:Ei.
-      + apply Nat.ltb_lt in Ei. destruct (pc_at s i) as [[| | | | | | |]|] eqn:Hpi; try discriminate.
-        inversion H; subst. eapply R_join; eauto.
+      + apply Nat.ltb_lt in Ei. destruct (joined i (evs s)) eqn:Ej.
+        * inversion H; subst. eapply R_fault; eauto.
+        * destruct (pc_at s i) as [[| | | | | | | | |]|] eqn:Hpi; try discriminate.
+          inversion H; subst. eapply R_join; eauto.
       + apply Nat.ltb_ge in Ei. inversion H; subst. eapply R_stopret; eauto.
+    - destruct (pc_at s t) as [[| | | | | | | | |]|] eqn:Hp; try discriminate.
+      inversion H; subst. eapply R_init; eauto.
   Qed.
 
   Lemma preach_inv : forall (Inv : psys -> Prop) s0,
@@ -157,11 +167,12 @@ Section Pool.
     (exists t p, set_prog t p (mon s) = Some (mon s')) \/
     mon s' = mon s.
   Proof.
-    intros s l s' H. destruct l as [cl|t|t|t|t].
+    intros s l s' H. destruct l as [cl|t|t|t|t|t].
     - left. exists cl. split; auto. cbn in H. unfold mon_step in H.
       destruct (step B (mon s) cl) as [m'|]; [|discriminate].
       destruct cl; try (inversion H; subst; reflexivity).
       destruct (ret_of maxq (mon s) t) as [[o r]|]; inversion H; subst; reflexivity.
+    - pose proof (pstep_sound _ _ _ H) as R; inversion R; subst; cbn [mon]; eauto.
     - pose proof (pstep_sound _ _ _ H) as R; inversion R; subst; cbn [mon]; eauto.
     - pose proof (pstep_sound _ _ _ H) as R; inversion R; subst; cbn [mon]; eauto.
     - pose proof (pstep_sound _ _ _ H) as R; inversion R; subst; cbn [mon]; eauto.
@@ -298,7 +309,7 @@ Section Pool.
 
   (* ================================================================ effect of a step on (shared state, event log) *)
   Definition quiet_event (e : event) : Prop :=
-    match e with EvStart _ _ | EvInline _ _ | EvStopRet _ => True | _ => False end.
+    match e with EvStart _ _ | EvInline _ _ | EvStopRet _ | EvInit _ | EvJoin _ _ | EvFault _ _ => True | _ => False end.
 
   Lemma pstep_log : forall s l s', pstep s l = Some s' ->
     (shared (mon s') = shared (mon s) /\ evs s' = evs s) \/
@@ -311,6 +322,9 @@ Section Pool.
     - right; left. split; auto. eexists; split; [reflexivity|exact I].
     - right; left. split; auto. eexists; split; [reflexivity|exact I].
     - left. destruct (set_prog_spec _ _ _ _ _ _ _ H2) as (th & _ & _ & ->). auto.
+    - right; left. split; auto. eexists; split; [reflexivity|exact I].
+    - right; left. split; auto. eexists; split; [reflexivity|exact I].
+    - right; left. split; auto. eexists; split; [reflexivity|exact I].
     - right; left. split; auto. eexists; split; [reflexivity|exact I].
   Qed.
 
@@ -401,9 +415,9 @@ Section Pool.
   (* ================================================================ coherence of thread-local control and monitor threads *)
   Definition coh1 (t : nat) (p : pc) (th : thread pop) : Prop :=
     match p with
-    | WLoop | WGot _ | WDone => t < nw /\ st th = Idle /\ prog th = []
+    | WLoop | WGot _ | WDone | WInit => t < nw /\ st th = Idle /\ prog th = []
     | WTake => t < nw /\ prog th = [PTake]
-    | CIdle _ | CJoin _ _ => nw <= t /\ st th = Idle /\ prog th = []
+    | CIdle _ | CJoin _ _ | CFault _ => nw <= t /\ st th = Idle /\ prog th = []
     | CCall _ => nw <= t /\ exists o, prog th = [o] /\ (o = PSize \/ (nw <> 0 /\ exists k, o = PRun k))
     | CStopping _ => nw <= t /\ prog th = [PStop]
     end.
@@ -481,7 +495,7 @@ Section Pool.
       pose proof (cohL_pc_at _ _ _ _ C H0) as Hpc.
       assert (Hc1 : coh1 t (nth t (pcs s) WDone) th) by (destruct C as (_ & Hc); eauto).
       eapply cohL_upd_both; eauto.
-      destruct (nth t (pcs s) WDone) as [| |k| |ops|ops|ops|i ops]; cbn in Hc1;
+      destruct (nth t (pcs s) WDone) as [| |k| |ops|ops|ops|i ops| |ops]; cbn in Hc1;
         try (destruct Hc1 as (_ & _ & Hq); congruence).
       + destruct Hc1 as (Hlt & Hq). rewrite H2 in Hq. inversion Hq; subst.
         destruct (body_ret_cases _ _ _ _ _ H3) as [(k & Ho & _)|[(k & Ho & _)|[(_ & _ & _ & _ & -> & _)|
@@ -496,6 +510,8 @@ Section Pool.
     - destruct (set_prog_spec _ _ _ _ _ _ _ H2) as (th & Hn & Hs & ->). cbn [threads].
       eapply cohL_upd_both; eauto. destruct C as (_ & Hc). destruct (Hc _ _ _ H0 Hn) as (Hle & _).
       destruct uo as [k| |]; cbn; eauto 10.
+    - apply cohL_upd_pc; auto. intros th Hn. destruct C as (_ & Hc). exact (Hc _ _ _ H0 Hn).
+    - apply cohL_upd_pc; auto. intros th Hn. destruct C as (_ & Hc). exact (Hc _ _ _ H0 Hn).
     - apply cohL_upd_pc; auto. intros th Hn. destruct C as (_ & Hc). exact (Hc _ _ _ H0 Hn).
     - apply cohL_upd_pc; auto. intros th Hn. destruct C as (_ & Hc). exact (Hc _ _ _ H0 Hn).
   Qed.
@@ -545,7 +561,7 @@ Section Pool.
       assert (Hc1 : coh1 t (nth t (pcs s) WDone) th) by (destruct C as (_ & Hc); eauto).
       exists t, (nth t (pcs s) WDone), (after_ret (nth t (pcs s) WDone) r), (ev_of t o r).
       split; auto. split; auto. split; auto.
-      destruct (nth t (pcs s) WDone) as [| |k| |ops|ops|ops|i ops]; cbn in Hc1;
+      destruct (nth t (pcs s) WDone) as [| |k| |ops|ops|ops|i ops| |ops]; cbn in Hc1;
         try (destruct Hc1 as (_ & _ & Hq); congruence).
       + destruct Hc1 as (Hlt & Hq). rewrite H2 in Hq. inversion Hq; subst.
         destruct (body_ret_cases _ _ _ _ _ H3) as [(k & Ho & _)|[(k & Ho & _)|[(_ & _ & _ & _ & -> & _)|
@@ -573,10 +589,16 @@ Section Pool.
     - exists t, (CIdle (uo :: ops)), (snd (call_of uo ops)), []. rewrite app_nil_r.
       split; [exact H0|]. split; [reflexivity|]. split; [reflexivity|].
       left. split; [reflexivity|]. split; [destruct uo; reflexivity|constructor].
-    - exists t, (CJoin i ops), (CJoin (S i) ops), []. rewrite app_nil_r.
+    - exists t, (CJoin i ops), (CJoin (S i) ops), [EvJoin t i].
       split; [exact H0|]. split; [reflexivity|]. split; [reflexivity|].
-      left. repeat split; constructor.
+      left. split; [reflexivity|]. split; [reflexivity|]. constructor; [exact I|constructor].
     - exists t, (CJoin i ops), (CIdle ops), [EvStopRet t].
+      split; [exact H0|]. split; [reflexivity|]. split; [reflexivity|].
+      left. split; [reflexivity|]. split; [reflexivity|]. constructor; [exact I|constructor].
+    - exists t, WInit, WLoop, [EvInit t].
+      split; [exact H0|]. split; [reflexivity|]. split; [reflexivity|].
+      left. split; [reflexivity|]. split; [reflexivity|]. constructor; [exact I|constructor].
+    - exists t, (CJoin i ops), (CFault ops), [EvFault t i].
       split; [exact H0|]. split; [reflexivity|]. split; [reflexivity|].
       left. split; [reflexivity|]. split; [reflexivity|]. constructor; [exact I|constructor].
   Qed.
@@ -663,7 +685,7 @@ Section Pool.
     intros progs s Hr. assert (coh s /\ HInv s) as (_ & I); auto. revert s Hr. apply preach_inv.
     - split; [apply coh_init|]. constructor.
       + intros t. cbn. unfold inhand_at, pc_at. cbn [pinit pcs].
-        destruct (nth_error (repeat WLoop nw ++ map CIdle progs) t) as [p|] eqn:E; auto.
+        destruct (nth_error (repeat WInit nw ++ map CIdle progs) t) as [p|] eqn:E; auto.
         apply nth_error_In in E. apply in_app_or in E. destruct E as [E|E].
         * apply repeat_spec in E. subst. reflexivity.
         * apply in_map_iff in E. destruct E as (o & <- & _). reflexivity.
@@ -752,7 +774,7 @@ Section Pool.
       assert (Hc1 : coh1 t (nth t (pcs s) WDone) th) by (destruct C as (_ & Hc); eauto).
       constructor.
       + intros u i ops Hu. destruct (pc_at_upd _ _ _ _ _ _ _ Hu) as [(-> & E)|(Hne & E)]; [|exact (Jold _ _ _ E)].
-        destruct (nth t (pcs s) WDone) as [| |kk| |ops0|ops0|ops0|i0 ops0] eqn:Ep; cbn in E;
+        destruct (nth t (pcs s) WDone) as [| |kk| |ops0|ops0|ops0|i0 ops0| |ops0] eqn:Ep; cbn in E;
           try discriminate E; try (destruct r as [| |[k0|]| |]; discriminate E).
         * inversion E; subst. destruct Hc1 as (_ & Hq). rewrite H2 in Hq. inversion Hq; subst.
           destruct (body_ret_cases _ _ _ _ _ H3) as [(k & Ho & _)|[(k & Ho & _)|[(Ho & _)|
@@ -792,13 +814,23 @@ Section Pool.
     - constructor; [|exact Rold|exact A].
       intros u i ops0 Hu. destruct (pc_at_upd _ _ _ _ _ _ _ Hu) as [(-> & E)|(Hne & E)]; [|exact (Jold _ _ _ E)].
       destruct uo; discriminate E.
-    - constructor; [|exact Rold|exact A].
-      intros u i0 ops0 Hu. destruct (pc_at_upd _ _ _ _ _ _ _ Hu) as [(-> & E)|(Hne & E)]; [|exact (Jold _ _ _ E)].
-      inversion E; subst. destruct (Jold _ _ _ H0) as (Hr & Hd). split; auto.
-      intros j Hj Hjn. destruct (Nat.eq_dec j i) as [->|Hne]; [apply F2; exact H2|apply Hd; lia].
+    - constructor.
+      + intros u i0 ops0 Hu. destruct (pc_at_upd _ _ _ _ _ _ _ Hu) as [(-> & E)|(Hne & E)]; [|exact (Jold _ _ _ E)].
+        inversion E; subst. destruct (Jold _ _ _ H0) as (Hr & Hd). split; auto.
+        intros j Hj Hjn. destruct (Nat.eq_dec j i) as [->|Hne]; [apply F2; exact H2|apply Hd; lia].
+      + cbn [evs]. rewrite existsb_snoc. cbn. rewrite orb_false_r. exact Rold.
+      + cbn [evs]. apply after_ok_snoc1; auto. intro; exact I.
     - destruct (Jold _ _ _ H0) as (Hr & Hd). constructor.
       + intros u i0 ops0 Hu. destruct (pc_at_upd _ _ _ _ _ _ _ Hu) as [(-> & E)|(Hne & E)]; [discriminate E|exact (Jold _ _ _ E)].
       + intros _. split; auto. intros j Hj. apply Hd; lia.
+      + cbn [evs]. apply after_ok_snoc1; auto. intro; exact I.
+    - constructor.
+      + intros u i0 ops0 Hu. destruct (pc_at_upd _ _ _ _ _ _ _ Hu) as [(-> & E)|(Hne & E)]; [discriminate E|exact (Jold _ _ _ E)].
+      + cbn [evs]. rewrite existsb_snoc. cbn. rewrite orb_false_r. exact Rold.
+      + cbn [evs]. apply after_ok_snoc1; auto. intro; exact I.
+    - constructor.
+      + intros u i0 ops0 Hu. destruct (pc_at_upd _ _ _ _ _ _ _ Hu) as [(-> & E)|(Hne & E)]; [discriminate E|exact (Jold _ _ _ E)].
+      + cbn [evs]. rewrite existsb_snoc. cbn. rewrite orb_false_r. exact Rold.
       + cbn [evs]. apply after_ok_snoc1; auto. intro; exact I.
   Qed.
 
@@ -869,19 +901,19 @@ Section Pool.
     intros s t p th th' Hp Hth. rewrite <- (upd_same t p (pcs s) Hp) at 1. apply combine_upd.
   Qed.
 
-  Lemma prank_le : forall r v, prank nw r v <= 8 + nw.
+  Lemma prank_le : forall r v, prank nw r v <= 10 + nw.
   Proof.
-    intros r [p th]. unfold prank. cbn [fst snd]. destruct p as [| |k| |[|o ops]|ops|ops|i ops]; try (destruct r; lia);
+    intros r [p th]. unfold prank. cbn [fst snd]. destruct p as [| |k| |[|o ops]|ops|ops|i ops| |ops]; try (destruct r; lia);
       try (unfold srank; destruct (st th); lia); try lia.
   Qed.
 
-  Lemma rank_sum_le : forall r vs, wsum (prank nw r) vs <= length vs * (8 + nw).
+  Lemma rank_sum_le : forall r vs, wsum (prank nw r) vs <= length vs * (10 + nw).
   Proof.
     intros r vs. induction vs as [|v vs IH]; cbn [wsum fold_right length]; [lia|].
     pose proof (prank_le r v). unfold wsum in IH. lia.
   Qed.
 
-  Definition pm (n w : nat) (r : bool) (vs : list view) : nat := (n * (8 + nw) + 1) * w + wsum (prank nw r) vs.
+  Definition pm (n w : nat) (r : bool) (vs : list view) : nat := (n * (10 + nw) + 1) * w + wsum (prank nw r) vs.
 
   Lemma pmeasure_pm : forall s, pmeasure nw s = pm (length (pcs s)) (pwork s) (running (shared (mon s))) (views s).
   Proof. reflexivity. Qed.
@@ -889,7 +921,7 @@ Section Pool.
   Lemma pm_work : forall n w w' r r' vs vs', w' < w -> length vs' <= n -> pm n w' r' vs' < pm n w r vs.
   Proof.
     intros n w w' r r' vs vs' Hw Hl. unfold pm. pose proof (rank_sum_le r' vs') as Hb.
-    apply lex_lt; auto. assert (length vs' * (8 + nw) <= n * (8 + nw)) by (apply Nat.mul_le_mono_r; auto). lia.
+    apply lex_lt; auto. assert (length vs' * (10 + nw) <= n * (10 + nw)) by (apply Nat.mul_le_mono_r; auto). lia.
   Qed.
 
   Lemma pm_rank : forall n w r vs t v v', nth_error vs t = Some v -> prank nw r v' < prank nw r v ->
@@ -1053,6 +1085,24 @@ Section Pool.
       unfold pwork, views at 1 2. cbn [pcs mon threads shared]. rewrite !(views_upd_pc _ _ _ _ _ H0 Hn).
       rewrite (work_rank_upd _ _ _ _ Hv) by reflexivity.
       fold (pwork s). eapply pm_rank; eauto. unfold prank. cbn [fst snd]. destruct ops; lia.
+    - (* thread-init callback *)
+      destruct C as (Hlen & Hc).
+      assert (exists th, nth_error (threads (mon s)) t = Some th) as (th & Hn).
+      { destruct (nth_error (threads (mon s)) t) eqn:E; eauto. exfalso. apply nth_error_None in E.
+        assert (nth_error (pcs s) t <> None) as Hx by (unfold pc_at in H0; congruence). apply nth_error_Some in Hx. lia. }
+      assert (Hv : nth_error (views s) t = Some (WInit, th)) by (apply nth_error_combine; auto).
+      unfold pwork, views at 1 2. cbn [pcs mon threads shared]. rewrite !(views_upd_pc _ _ _ _ _ H0 Hn).
+      rewrite (work_rank_upd _ _ _ _ Hv) by reflexivity.
+      fold (pwork s). eapply pm_rank; eauto. unfold prank. cbn [fst snd st]. destruct (running (shared (mon s))); lia.
+    - (* second join: fault *)
+      destruct C as (Hlen & Hc).
+      assert (exists th, nth_error (threads (mon s)) t = Some th) as (th & Hn).
+      { destruct (nth_error (threads (mon s)) t) eqn:E; eauto. exfalso. apply nth_error_None in E.
+        assert (nth_error (pcs s) t <> None) as Hx by (unfold pc_at in H0; congruence). apply nth_error_Some in Hx. lia. }
+      assert (Hv : nth_error (views s) t = Some (CJoin i ops, th)) by (apply nth_error_combine; auto).
+      unfold pwork, views at 1 2. cbn [pcs mon threads shared]. rewrite !(views_upd_pc _ _ _ _ _ H0 Hn).
+      rewrite (work_rank_upd _ _ _ _ Hv) by reflexivity.
+      fold (pwork s). eapply pm_rank; eauto. unfold prank. cbn [fst snd]. lia.
   Qed.
 
   Lemma pm_rank_le : forall n w r vs t v v', nth_error vs t = Some v -> prank nw r v' <= prank nw r v + 2 ->
@@ -1071,7 +1121,7 @@ Section Pool.
     unfold pwork, views at 1 2. cbn [pcs mon threads shared]. rewrite !(views_upd_th _ _ _ _ _ Hpc H1).
     rewrite (work_rank_upd _ _ _ _ Hv) by reflexivity.
     fold (pwork s). eapply pm_rank_le; eauto. unfold prank. cbn [fst snd st signalled_of]. rewrite H2.
-    destruct (nth t (pcs s) WDone) as [| | | |[|]| | |]; cbn; lia.
+    destruct (nth t (pcs s) WDone) as [| | | |[|]| | | | |]; cbn; lia.
   Qed.
 
   (* from a coherent (in particular: reachable) state, EVERY schedule: the number of steps that are
@@ -1084,7 +1134,7 @@ Section Pool.
     - destruct (pstep s l) as [s1|] eqn:E; [|discriminate].
       specialize (IH _ _ (coh_step _ _ _ C E) H).
       unfold pnonspur, pnspur in *. cbn [filter]. destruct (p_is_spurious l) eqn:El; cbn [negb length].
-      + destruct l as [[| |t|]| | | |]; try discriminate. pose proof (pmeasure_spurious _ _ _ C E). lia.
+      + destruct l as [[| |t|]| | | | |]; try discriminate. pose proof (pmeasure_spurious _ _ _ C E). lia.
       + pose proof (pmeasure_step _ _ _ C E El). lia.
   Qed.
 
@@ -1101,7 +1151,7 @@ Section Pool.
   Definition label_thread (l : plabel) : nat :=
     match l with
     | LMon (LAcquire t) | LMon (LBody t _) | LMon (LSpurious t) | LMon (LReacquire t)
-    | LLoad t | LExec t | LNext t | LJoin t => t
+    | LLoad t | LExec t | LNext t | LJoin t | LInit t => t
     end.
 
   Lemma pstep_in_range : forall s l s', coh s -> pstep s l = Some s' -> label_thread l < length (pcs s).
@@ -1122,7 +1172,8 @@ Section Pool.
     destruct (pstep s (LLoad t)) eqn:E4; [inversion H; subst; split; eauto|].
     destruct (pstep s (LExec t)) eqn:E5; [inversion H; subst; split; eauto|].
     destruct (pstep s (LNext t)) eqn:E6; [inversion H; subst; split; eauto|].
-    destruct (pstep s (LJoin t)) eqn:E7; [inversion H; subst; split; eauto|]. discriminate.
+    destruct (pstep s (LJoin t)) eqn:E7; [inversion H; subst; split; eauto|].
+    destruct (pstep s (LInit t)) eqn:E8; [inversion H; subst; split; eauto|]. discriminate.
   Qed.
 
   Lemma pcan_move_complete : forall s l s', pstep s l = Some s' -> p_is_spurious l = false ->
@@ -1136,7 +1187,8 @@ Section Pool.
     destruct (pstep s (LExec (label_thread l))) eqn:E5; [discriminate|].
     destruct (pstep s (LNext (label_thread l))) eqn:E6; [discriminate|].
     destruct (pstep s (LJoin (label_thread l))) eqn:E7; [discriminate|].
-    destruct l as [[t|t picks|t|t]|t|t|t|t]; cbn [label_thread] in *; try congruence; try discriminate Hl.
+    destruct (pstep s (LInit (label_thread l))) eqn:E8; [discriminate|].
+    destruct l as [[t|t picks|t|t]|t|t|t|t|t]; cbn [label_thread] in *; try congruence; try discriminate Hl.
     destruct (mon_body_any_picks _ _ _ _ H) as (s'' & E). congruence.
   Qed.
 
@@ -1208,7 +1260,7 @@ Section Pool.
 
   Lemma thread_moves : forall s t p th, coh s -> wf _ _ _ (mon s) -> owner (mon s) = None ->
     nth_error (pcs s) t = Some p -> nth_error (threads (mon s)) t = Some th ->
-    (exists c, st th = Waiting c) \/ p = WDone \/ p = CIdle [] \/
+    (exists c, st th = Waiting c) \/ p = WDone \/ (p = CIdle [] \/ exists ops, p = CFault ops) \/
     (exists i ops, p = CJoin i ops /\ i < nw /\ pc_at s i <> Some WDone) \/ movable s t.
   Proof.
     intros s t p th C W Ho Hp Hn. destruct C as (Hlen & Hc). pose proof (Hc _ _ _ Hp Hn) as Hc1.
@@ -1218,7 +1270,7 @@ Section Pool.
       - exfalso. rewrite (wf_incs _ _ _ _ W _ _ Hn Hs) in Ho. discriminate.
       - left. eauto.
       - right. destruct (E_reacquire s t th Hn Hs Ho) as (s' & E). exists (LMon (LReacquire t)), s'. auto. }
-    destruct p as [| |k| |[|uo ops]|ops|ops|i ops]; cbn in Hc1; auto.
+    destruct p as [| |k| |[|uo ops]|ops|ops|i ops| |ops]; cbn in Hc1; auto.
     - (* WLoop *) right; right; right; right. destruct Hc1 as (_ & Hs & _).
       exists (LLoad t). cbn [label_thread p_is_spurious C15_Model.pstep]. unfold pc_at. rewrite Hp.
       destruct (running (shared (mon s))).
@@ -1234,13 +1286,18 @@ Section Pool.
     - (* CCall *) destruct Hc1 as (_ & o & Hq & _). destruct (Hsec _ _ Hq) as [H|H]; auto 6.
     - (* CStopping *) destruct Hc1 as (_ & Hq). destruct (Hsec _ _ Hq) as [H|H]; auto 6.
     - (* CJoin *) destruct (Nat.lt_ge_cases i nw) as [Hlt|Hge].
-      + destruct (pc_at s i) as [pi|] eqn:Ei.
+      + destruct (joined i (evs s)) eqn:Ej.
+        { right; right; right; right. exists (LJoin t). cbn [label_thread p_is_spurious C15_Model.pstep]. unfold pc_at in *. rewrite Hp.
+          apply Nat.ltb_lt in Hlt. rewrite Hlt, Ej. eauto. }
+        destruct (pc_at s i) as [pi|] eqn:Ei.
         * destruct pi; try (right; right; right; left; exists i, ops; repeat split; auto; congruence).
           right; right; right; right. exists (LJoin t). cbn [label_thread p_is_spurious C15_Model.pstep]. unfold pc_at in *. rewrite Hp.
-          apply Nat.ltb_lt in Hlt. rewrite Hlt, Ei. cbn. eauto.
+          apply Nat.ltb_lt in Hlt. rewrite Hlt, Ej, Ei. cbn. eauto.
         * right; right; right; left. exists i, ops. repeat split; auto. congruence.
       + right; right; right; right. exists (LJoin t). cbn [label_thread p_is_spurious C15_Model.pstep]. unfold pc_at. rewrite Hp.
         apply Nat.ltb_ge in Hge. rewrite Hge. eauto.
+    - (* WInit *) right; right; right; right. exists (LInit t). cbn [label_thread p_is_spurious C15_Model.pstep]. unfold pc_at. rewrite Hp. eauto.
+    - (* CFault *) right; right; left. right. eauto.
   Qed.
 
   Lemma waiting_cond : forall s t p th c, coh s -> MInv (mon s) ->
@@ -1259,7 +1316,7 @@ Section Pool.
   Theorem quiescent_shape_gen : forall s, coh s -> MInv (mon s) -> SInv s -> nw <= length (pcs s) ->
     pquiescent nw maxq s ->
     forall t p th, nth_error (pcs s) t = Some p -> nth_error (threads (mon s)) t = Some th ->
-      p = WDone \/ p = CIdle [] \/
+      p = WDone \/ p = CIdle [] \/ (exists ops, p = CFault ops) \/
       (p = WTake /\ st th = Waiting notEmpty /\ queue (shared (mon s)) = [] /\ running (shared (mon s)) = true) \/
       (exists ops, p = CCall ops /\ st th = Waiting notFull /\ isFull maxq (queue (shared (mon s))) = true /\
                    running (shared (mon s)) = true).
@@ -1294,15 +1351,15 @@ Section Pool.
       - exfalso. apply nth_error_None in Hp. destruct C as (Hlen & _).
         assert (nth_error (threads (mon s)) u <> None) as Hx by congruence. apply nth_error_Some in Hx. lia. }
     intros t p th Hp Hn.
-    destruct (thread_moves _ _ _ _ C W Ho Hp Hn) as [(c & Hs)|[->|[->|[(i & ops & -> & Hlt & Hnd)|Hm]]]]; auto.
+    destruct (thread_moves _ _ _ _ C W Ho Hp Hn) as [(c & Hs)|[->|[[->|(fo & ->)]|[(i & ops & -> & Hlt & Hnd)|Hm]]]]; eauto.
     - (* waiting: the disciplines *)
       destruct (Hwait _ _ _ _ Hp Hn Hs) as (_ & Hr).
       assert (Hpos : nwaiting c (mon s) > 0) by (eapply count_pos_nth; eauto; apply is_waiting_true; auto).
       destruct (waiting_cond _ _ _ _ _ C I Hp Hn Hs) as [(-> & ->)|(ops & -> & ->)].
-      + right; right; left. repeat split; auto.
+      + right; right; right; left. repeat split; auto.
         pose proof (mi_dE _ I Hpos) as Hd. rewrite Hcl in Hd. unfold availE in Hd. rewrite Hr in Hd.
         apply length_zero_iff_nil. lia.
-      + right; right; right. exists ops. repeat split; auto.
+      + right; right; right; right. exists ops. repeat split; auto.
         pose proof (mi_dF _ I Hpos) as Hd. rewrite Hcl in Hd. unfold availF in Hd. rewrite Hr in Hd.
         pose proof (mi_bM _ I Hpos) as Hm. cbv beta in Hm. unfold isFull. apply andb_true_iff. split.
         * apply Nat.ltb_lt. auto.
@@ -1313,9 +1370,10 @@ Section Pool.
       2:{ apply nth_error_None in Hpi. lia. }
       destruct (nth_error (threads (mon s)) i) as [thi|] eqn:Hni.
       2:{ apply nth_error_None in Hni. destruct C as (Hlen & _). lia. }
-      destruct (thread_moves _ _ _ _ C W Ho Hpi Hni) as [(c & Hs)|[->|[->|[(i' & ops' & -> & _)|Hm]]]].
+      destruct (thread_moves _ _ _ _ C W Ho Hpi Hni) as [(c & Hs)|[->|[[->|(fo & ->)]|[(i' & ops' & -> & _)|Hm]]]].
       + destruct (Hwait _ _ _ _ Hpi Hni Hs) as (_ & Hr). congruence.
       + apply Hnd. exact Hpi.
+      + destruct C as (_ & Hc). destruct (Hc _ _ _ Hpi Hni) as (Hge & _). lia.
       + destruct C as (_ & Hc). destruct (Hc _ _ _ Hpi Hni) as (Hge & _). lia.
       + destruct C as (_ & Hc). destruct (Hc _ _ _ Hpi Hni) as (Hge & _). lia.
       + exact (Hnm _ Hm).
@@ -1330,90 +1388,143 @@ Section Pool.
       destruct (pstep_hand _ _ _ C H) as [(-> & _)|(t & p & p' & ev & _ & -> & _)]; auto. rewrite upd_length. auto.
   Qed.
 
-  (* ================================================================ more about stop() *)
-  Record DInv (s : psys) : Prop := {
-    di_done : forall t, pc_at s t = Some WDone -> running (shared (mon s)) = false;
-    di_stop : forall t, In (EvStopSec t) (evs s) ->
-                In (EvStopRet t) (evs s) \/ exists i ops, pc_at s t = Some (CJoin i ops)
-  }.
+  (* ================================================================ what one step does to thread-local control and log *)
+  Inductive ptrans (s s' : psys) (t : nat) : pc -> pc -> list event -> Prop :=
+  | T_take_some : forall k, ptrans s s' t WTake (WGot k) [EvTake t k]
+  | T_take_none : running (shared (mon s)) = false -> ptrans s s' t WTake WLoop []
+  | T_accept : forall ops k, running (shared (mon s)) = true -> ptrans s s' t (CCall ops) (CIdle ops) [EvAccept t k]
+  | T_reject : forall ops k, running (shared (mon s)) = false -> ptrans s s' t (CCall ops) (CIdle ops) [EvReject t k]
+  | T_size : forall ops, ptrans s s' t (CCall ops) (CIdle ops) []
+  | T_stopsec : forall ops, running (shared (mon s')) = false -> ptrans s s' t (CStopping ops) (CJoin 0 ops) [EvStopSec t]
+  | T_load_true : running (shared (mon s)) = true -> ptrans s s' t WLoop WTake []
+  | T_load_false : running (shared (mon s)) = false -> ptrans s s' t WLoop WDone []
+  | T_exec : forall k, ptrans s s' t (WGot k) WLoop [EvStart t k]
+  | T_inline : forall k ops, nw = 0 -> ptrans s s' t (CIdle (URun k :: ops)) (CIdle ops) [EvInline t k]
+  | T_call : forall uo ops, ptrans s s' t (CIdle (uo :: ops)) (snd (call_of uo ops)) []
+  | T_join : forall i ops, i < nw -> pc_at s i = Some WDone -> joined i (evs s) = false ->
+      ptrans s s' t (CJoin i ops) (CJoin (S i) ops) [EvJoin t i]
+  | T_stopret : forall i ops, nw <= i -> ptrans s s' t (CJoin i ops) (CIdle ops) [EvStopRet t]
+  | T_init : ptrans s s' t WInit WLoop [EvInit t]
+  | T_fault : forall i ops, i < nw -> joined i (evs s) = true -> ptrans s s' t (CJoin i ops) (CFault ops) [EvFault t i].
 
-  Lemma ev_of_stopsec : forall t u o r, In (EvStopSec u) (ev_of t o r) -> u = t /\ o = PStop.
+  Lemma pstep_pc : forall s l s', coh s -> pstep s l = Some s' ->
+    (pcs s' = pcs s /\ evs s' = evs s) \/
+    exists t p p' ev, nth_error (pcs s) t = Some p /\ pcs s' = upd t p' (pcs s) /\ evs s' = evs s ++ ev /\
+                      ptrans s s' t p p' ev.
   Proof.
-    intros t u o r H. destruct o; destruct r as [| |[k0|]| |]; cbn in H; try tauto;
-      destruct H as [H|[]]; try discriminate; inversion H; auto.
-  Qed.
-
-  Lemma DInv_step : forall s l s', coh s -> DInv s -> pstep s l = Some s' -> DInv s'.
-  Proof.
-    intros s l s' C [D St] H.
-    pose proof (running_stays_false _ _ _ H) as F1.
-    pose proof (pstep_sound _ _ _ H) as R.
-    assert (Dold : forall t, pc_at s t = Some WDone -> running (shared (mon s')) = false) by (intros u Hu; apply F1; eapply D; eauto).
-    assert (Sold : forall t ev, In (EvStopSec t) (evs s) -> (forall i ops, pc_at s t = Some (CJoin i ops) ->
-               In (EvStopRet t) (evs s ++ ev) \/ exists i' ops', pc_at s' t = Some (CJoin i' ops')) ->
-               In (EvStopRet t) (evs s ++ ev) \/ exists i' ops', pc_at s' t = Some (CJoin i' ops')).
-    { intros t ev Hin Hk. destruct (St _ Hin) as [Hr|(i & ops & Hp)]; [left; apply in_or_app; auto|eauto]. }
-    clear F1. inversion R; subst.
-    - constructor; [exact Dold|]. intros u Hin. rewrite <- (app_nil_r (evs s)). apply Sold; auto. intros; right; eauto.
-    - constructor; [exact Dold|]. intros u Hin. rewrite <- (app_nil_r (evs s)). apply Sold; auto. intros; right; eauto.
-    - constructor; [exact Dold|]. intros u Hin. rewrite <- (app_nil_r (evs s)). apply Sold; auto. intros; right; eauto.
-    - constructor; [exact Dold|]. intros u Hin. rewrite <- (app_nil_r (evs s)). apply Sold; auto. intros; right; eauto.
+    intros s l s' C H. pose proof (pstep_sound _ _ _ H) as R.
+    inversion R; subst; cbn [pcs evs]; auto; right.
     - (* return from a section *)
       pose proof (cohL_pc_at _ _ _ _ C H0) as Hpc.
       assert (Hc1 : coh1 t (nth t (pcs s) WDone) th) by (destruct C as (_ & Hc); eauto).
+      exists t, (nth t (pcs s) WDone), (after_ret (nth t (pcs s) WDone) r), (ev_of t o r).
+      split; auto. split; auto. split; auto.
+      destruct (nth t (pcs s) WDone) as [| |k| |ops|ops|ops|i ops| |ops]; cbn in Hc1;
+        try (destruct Hc1 as (_ & _ & Hq); congruence).
+      + destruct Hc1 as (Hlt & Hq). rewrite H2 in Hq. inversion Hq; subst.
+        destruct (body_ret_cases _ _ _ _ _ H3) as [(k & Ho & _)|[(k & Ho & _)|[(_ & _ & Hf & _ & -> & _)|
+          [(k & q' & _ & _ & _ & -> & _)|[(Ho & _)|(Ho & _)]]]]]; try discriminate; cbn.
+        * apply T_take_none; auto.
+        * apply T_take_some.
+      + destruct Hc1 as (Hle & o' & Hq & Ho). rewrite H2 in Hq. inversion Hq; subst. cbn [after_ret].
+        destruct (body_ret_cases _ _ _ _ _ H3) as [(k & -> & Hf & _ & -> & _)|[(k & -> & Hr & _ & _ & -> & _)|[(-> & _)|
+          [(k & q' & -> & _)|[(-> & _)|(-> & _ & -> & _)]]]]]; cbn [ev_of];
+          try (destruct Ho as [Ho|(_ & k' & Ho)]; discriminate).
+        * apply T_reject; auto.
+        * apply T_accept; auto.
+        * apply T_size.
+      + destruct Hc1 as (Hle & Hq). rewrite H2 in Hq. inversion Hq; subst. cbn [after_ret].
+        destruct (body_ret_cases _ _ _ _ _ H3) as [(k & Ho & _)|[(k & Ho & _)|[(Ho & _)|
+          [(k & q' & Ho & _)|[(_ & -> & -> & _)|(Ho & _)]]]]]; try discriminate. cbn [ev_of].
+        apply T_stopsec. reflexivity.
+    - exists t, WLoop, WTake, []. rewrite app_nil_r. split; [exact H0|]. split; [reflexivity|]. split; [reflexivity|].
+      apply T_load_true; auto.
+    - exists t, WLoop, WDone, []. rewrite app_nil_r. split; [exact H0|]. split; [reflexivity|]. split; [reflexivity|].
+      apply T_load_false; auto.
+    - exists t, (WGot k), WLoop, [EvStart t k]. split; [exact H0|]. split; [reflexivity|]. split; [reflexivity|]. apply T_exec.
+    - exists t, (CIdle (URun k :: ops)), (CIdle ops), [EvInline t k].
+      split; [exact H0|]. split; [reflexivity|]. split; [reflexivity|]. apply T_inline; auto.
+    - exists t, (CIdle (uo :: ops)), (snd (call_of uo ops)), []. rewrite app_nil_r.
+      split; [exact H0|]. split; [reflexivity|]. split; [reflexivity|]. apply T_call.
+    - exists t, (CJoin i ops), (CJoin (S i) ops), [EvJoin t i].
+      split; [exact H0|]. split; [reflexivity|]. split; [reflexivity|]. apply T_join; auto.
+    - exists t, (CJoin i ops), (CIdle ops), [EvStopRet t].
+      split; [exact H0|]. split; [reflexivity|]. split; [reflexivity|]. apply T_stopret; auto.
+    - exists t, WInit, WLoop, [EvInit t]. split; [exact H0|]. split; [reflexivity|]. split; [reflexivity|]. apply T_init.
+    - exists t, (CJoin i ops), (CFault ops), [EvFault t i].
+      split; [exact H0|]. split; [reflexivity|]. split; [reflexivity|]. apply T_fault; auto.
+  Qed.
+
+  Lemma pc_at_step : forall s s' t p' u, pcs s' = upd t p' (pcs s) -> u <> t -> pc_at s' u = pc_at s u.
+  Proof. intros s s' t p' u E Hne. unfold pc_at. rewrite E. apply nth_error_upd_neq. auto. Qed.
+
+  Lemma pc_at_step_eq : forall s s' t p p', nth_error (pcs s) t = Some p -> pcs s' = upd t p' (pcs s) -> pc_at s' t = Some p'.
+  Proof. intros s s' t p p' Hn E. unfold pc_at. rewrite E. eapply nth_error_upd_eq; eauto. Qed.
+
+  (* ================================================================ more about stop(), via pstep_pc *)
+  Definition event_thread (x : event) : nat :=
+    match x with
+    | EvAccept t _ | EvReject t _ | EvTake t _ | EvStart t _ | EvInline t _ | EvStopSec t | EvStopRet t
+    | EvInit t | EvJoin t _ | EvFault t _ => t
+    end.
+
+  Lemma ptrans_by : forall s s' t p p' ev, ptrans s s' t p p' ev -> forall x, In x ev -> event_thread x = t.
+  Proof. intros s s' t p p' ev H x Hin. inversion H; subst; cbn in Hin; try tauto; destruct Hin as [<-|[]]; reflexivity. Qed.
+
+  Ltac inv_trans Ht :=
+    inversion Ht; subst; try discriminate;
+    try (match goal with H : snd (call_of ?u _) = _ |- _ => destruct u; discriminate H end);
+    try (match goal with H : _ = snd (call_of ?u _) |- _ => destruct u; discriminate H end).
+
+  Definition stopstate (p : option pc) : Prop :=
+    match p with Some (CJoin _ _) | Some (CFault _) => True | _ => False end.
+
+  Record DInv (s : psys) : Prop := {
+    di_done : forall t, pc_at s t = Some WDone -> running (shared (mon s)) = false;
+    di_stop : forall t, In (EvStopSec t) (evs s) -> In (EvStopRet t) (evs s) \/ stopstate (pc_at s t);
+    di_fault : forall t ops, pc_at s t = Some (CFault ops) -> exists i, In (EvFault t i) (evs s);
+    di_join : forall u j, In (EvJoin u j) (evs s) ->
+                In (EvStopRet u) (evs s) \/ (exists i ops, pc_at s u = Some (CJoin i ops) /\ j < i) \/
+                (exists ops, pc_at s u = Some (CFault ops))
+  }.
+
+  Lemma DInv_step : forall s l s', coh s -> DInv s -> pstep s l = Some s' -> DInv s'.
+  Proof.
+    intros s l s' C [D St Fa Jo] H. pose proof (running_stays_false _ _ _ H) as F1.
+    destruct (pstep_pc _ _ _ C H) as [(Ep & Ee)|(t & p & p' & ev & Hn & Ep & Ee & Ht)].
+    - constructor; unfold pc_at in *; rewrite ?Ep, ?Ee; auto. intros u Hu. apply F1. eapply D; eauto.
+    - assert (Hoth : forall u, u <> t -> pc_at s' u = pc_at s u) by (intros; eapply pc_at_step; eauto).
+      assert (Hme : pc_at s' t = Some p') by (eapply pc_at_step_eq; eauto).
+      assert (Hold : pc_at s t = Some p) by exact Hn.
       constructor.
-      + intros u Hu. destruct (pc_at_upd _ _ _ _ _ _ _ Hu) as [(-> & E)|(Hne & E)]; [|exact (Dold _ E)].
-        exfalso. destruct (nth t (pcs s) WDone) as [| |kk| |ops0|ops0|ops0|i0 ops0]; cbn in E, Hc1;
-          try discriminate E; try (destruct r as [| |[k0|]| |]; discriminate E).
-        destruct Hc1 as (_ & Hs & _). congruence.
-      + intros u Hin. cbn [evs] in *. apply in_app_or in Hin. destruct Hin as [Hin|Hin].
-        * apply Sold; auto. intros i ops Hp. right.
-          destruct (Nat.eq_dec u t) as [->|Hne].
-          -- exfalso. unfold pc_at in Hp. rewrite Hpc in Hp. inversion Hp as [Hp']. rewrite Hp' in Hc1.
-             destruct Hc1 as (_ & Hs & _). congruence.
-          -- exists i, ops. apply pc_at_upd_other; auto.
-        * destruct (ev_of_stopsec _ _ _ _ Hin) as (-> & ->). right.
-          destruct (nth t (pcs s) WDone) as [| |kk| |ops0|ops0|ops0|i0 ops0] eqn:Ep; cbn in Hc1;
-            try (destruct Hc1 as (_ & _ & Hq); congruence).
-          -- destruct Hc1 as (_ & Hq). rewrite H2 in Hq. discriminate.
-          -- destruct Hc1 as (_ & o' & Hq & [->|(_ & k' & ->)]); rewrite H2 in Hq; discriminate.
-          -- exists 0, ops0. unfold pc_at. cbn [pcs]. rewrite (nth_error_upd_eq _ _ _ _ Hpc). reflexivity.
-    - constructor.
-      + intros u Hu. destruct (pc_at_upd _ _ _ _ _ _ _ Hu) as [(-> & E)|(Hne & E)]; [discriminate E|exact (Dold _ E)].
-      + intros u Hin. rewrite <- (app_nil_r (evs s)). apply Sold; auto. intros i ops Hp. right. exists i, ops.
-        apply pc_at_upd_other; auto. intro; subst. unfold pc_at in *. congruence.
-    - constructor.
-      + intros u Hu. destruct (pc_at_upd _ _ _ _ _ _ _ Hu) as [(-> & E)|(Hne & E)]; [exact H1|exact (Dold _ E)].
-      + intros u Hin. rewrite <- (app_nil_r (evs s)). apply Sold; auto. intros i ops Hp. right. exists i, ops.
-        apply pc_at_upd_other; auto. intro; subst. unfold pc_at in *. congruence.
-    - constructor.
-      + intros u Hu. destruct (pc_at_upd _ _ _ _ _ _ _ Hu) as [(-> & E)|(Hne & E)]; [discriminate E|exact (Dold _ E)].
-      + intros u Hin. cbn [evs] in Hin. apply in_app_or in Hin. destruct Hin as [Hin|[Hin|[]]]; [|discriminate].
-        apply Sold; auto. intros i ops Hp. right. exists i, ops.
-        apply pc_at_upd_other; auto. intro; subst. unfold pc_at in *. congruence.
-    - constructor.
-      + intros u Hu. destruct (pc_at_upd _ _ _ _ _ _ _ Hu) as [(-> & E)|(Hne & E)]; [discriminate E|exact (Dold _ E)].
-      + intros u Hin. cbn [evs] in Hin. apply in_app_or in Hin. destruct Hin as [Hin|[Hin|[]]]; [|discriminate].
-        apply Sold; auto. intros i ops0 Hp. right. exists i, ops0.
-        apply pc_at_upd_other; auto. intro; subst. unfold pc_at in *. congruence.
-    - constructor.
-      + intros u Hu. destruct (pc_at_upd _ _ _ _ _ _ _ Hu) as [(-> & E)|(Hne & E)]; [|exact (Dold _ E)].
-        destruct uo; discriminate E.
-      + intros u Hin. rewrite <- (app_nil_r (evs s)). apply Sold; auto. intros i ops0 Hp. right. exists i, ops0.
-        apply pc_at_upd_other; auto. intro; subst. unfold pc_at in *. congruence.
-    - constructor.
-      + intros u Hu. destruct (pc_at_upd _ _ _ _ _ _ _ Hu) as [(-> & E)|(Hne & E)]; [discriminate E|exact (Dold _ E)].
-      + intros u Hin. rewrite <- (app_nil_r (evs s)). apply Sold; auto. intros i0 ops0 Hp. right.
-        destruct (Nat.eq_dec u t) as [->|Hne].
-        * exists (S i), ops. unfold pc_at in *. cbn [pcs]. rewrite (nth_error_upd_eq _ _ _ _ H0). reflexivity.
-        * exists i0, ops0. apply pc_at_upd_other; auto.
-    - constructor.
-      + intros u Hu. destruct (pc_at_upd _ _ _ _ _ _ _ Hu) as [(-> & E)|(Hne & E)]; [discriminate E|exact (Dold _ E)].
-      + intros u Hin. cbn [evs] in Hin. apply in_app_or in Hin. destruct Hin as [Hin|[Hin|[]]]; [|discriminate].
-        apply Sold; auto. intros i0 ops0 Hp.
-        destruct (Nat.eq_dec u t) as [->|Hne].
-        * left. apply in_or_app. right. left. reflexivity.
-        * right. exists i0, ops0. apply pc_at_upd_other; auto.
+      + intros u Hu. destruct (Nat.eq_dec u t) as [->|Hne].
+        * rewrite Hme in Hu. inversion Hu; subst. inv_trans Ht. apply F1; auto.
+        * rewrite (Hoth _ Hne) in Hu. apply F1. eapply D; eauto.
+      + intros u Hin. rewrite Ee in Hin. apply in_app_or in Hin. destruct Hin as [Hin|Hin].
+        * destruct (St _ Hin) as [Hr|Hs]; [left; rewrite Ee; apply in_or_app; auto|].
+          destruct (Nat.eq_dec u t) as [->|Hne]; [|right; rewrite (Hoth _ Hne); exact Hs].
+          rewrite Hold in Hs. rewrite Hme, Ee.
+          inversion Ht; subst; cbn in Hs; try contradiction; cbn; auto.
+          left. apply in_or_app. right. left. reflexivity.
+        * pose proof (ptrans_by _ _ _ _ _ _ Ht _ Hin) as Eu. cbn in Eu. subst u. right. rewrite Hme.
+          inversion Ht; subst; cbn in Hin; try tauto; try (destruct Hin as [Hin|[]]; discriminate). exact I.
+      + intros u ops Hu. destruct (Nat.eq_dec u t) as [->|Hne].
+        * rewrite Hme in Hu. inversion Hu; subst. inv_trans Ht.
+          exists i. rewrite Ee. apply in_or_app. right. left. reflexivity.
+        * rewrite (Hoth _ Hne) in Hu. destruct (Fa _ _ Hu) as (i & Hi). exists i. rewrite Ee. apply in_or_app. auto.
+      + intros u j Hin. rewrite Ee in Hin. apply in_app_or in Hin. destruct Hin as [Hin|Hin].
+        * destruct (Jo _ _ Hin) as [Hr|[(i & ops & Hp & Hlt)|(ops & Hp)]].
+          -- left. rewrite Ee. apply in_or_app. auto.
+          -- destruct (Nat.eq_dec u t) as [->|Hne]; [|right; left; exists i, ops; rewrite (Hoth _ Hne); auto].
+             rewrite Hold in Hp. inversion Hp; subst. rewrite Hme, Ee. inversion Ht; subst.
+             ++ right; left. exists (S i), ops. split; auto.
+             ++ left. apply in_or_app. right. left. reflexivity.
+             ++ right; right. eauto.
+          -- destruct (Nat.eq_dec u t) as [->|Hne]; [|right; right; exists ops; rewrite (Hoth _ Hne); auto].
+             rewrite Hold in Hp. inversion Hp; subst. inversion Ht.
+        * pose proof (ptrans_by _ _ _ _ _ _ Ht _ Hin) as Eu. cbn in Eu. subst u. rewrite Hme.
+          inversion Ht; subst; cbn in Hin; try tauto; try (destruct Hin as [Hin|[]]; discriminate).
+          destruct Hin as [Hin|[]]. inversion Hin; subst. right; left. exists (S j), ops. auto.
   Qed.
 
   Theorem DInv_reach : forall progs s, preach nw maxq (pinit nw progs) s -> DInv s.
@@ -1425,461 +1536,69 @@ Section Pool.
         * apply repeat_spec in Hp. discriminate.
         * apply in_map_iff in Hp. destruct Hp as (o & Ho & _). discriminate.
       + intros t [].
+      + intros t ops Hp. exfalso. unfold pc_at, pinit in Hp. cbn [pcs] in Hp. apply nth_error_In in Hp.
+        apply in_app_or in Hp. destruct Hp as [Hp|Hp].
+        * apply repeat_spec in Hp. discriminate.
+        * apply in_map_iff in Hp. destruct Hp as (o & Ho & _). discriminate.
+      + intros u j [].
     - intros s l s' _ (C & I) H. split; [eapply coh_step|eapply DInv_step]; eauto.
   Qed.
 
-  (* ================================================================ the statements of Properties_C15 *)
-  Notation reachable progs s := (preach nw maxq (pinit nw progs) s).
+  (* ================================================================ the thread-init callback *)
+  Record IInv (s : psys) : Prop := {
+    ii_fresh : forall t, pc_at s t = Some WInit -> ~ In (EvInit t) (evs s);
+    ii_once : forall t, count_occ Nat.eq_dec (inits (evs s)) t <= 1;
+    ii_past : forall t p, pc_at s t = Some p -> t < nw -> p <> WInit -> In (EvInit t) (evs s);
+    ii_first : forall x, In x (evs s) -> match x with EvTake t _ | EvStart t _ => In (EvInit t) (evs s) | _ => True end
+  }.
 
-  Theorem accounting : forall progs s, reachable progs s -> forall k,
-    count_occ Nat.eq_dec (accepted (evs s)) k =
-    count_occ Nat.eq_dec (started (evs s)) k + count_occ Nat.eq_dec (inhand (pcs s)) k +
-    count_occ Nat.eq_dec (queue (shared (mon s))) k.
+  Lemma inits_in : forall e t, In t (inits e) <-> In (EvInit t) e.
   Proof.
-    intros progs s Hr k. rewrite (li_acct _ _ (LInv_reach _ _ Hr)), count_occ_app, (hi_count _ (HInv_reach _ _ Hr)).
-    reflexivity.
+    intros e t. unfold inits. rewrite in_flat_map. split.
+    - intros (x & Hx & Ht). destruct x; cbn in Ht; try tauto. destruct Ht as [<-|[]]. exact Hx.
+    - intros H. exists (EvInit t). split; auto. left. reflexivity.
   Qed.
 
-  Theorem at_most_once : forall progs s, reachable progs s -> forall k,
-    count_occ Nat.eq_dec (started (evs s)) k <= count_occ Nat.eq_dec (accepted (evs s)) k.
-  Proof. intros progs s Hr k. rewrite (accounting _ _ Hr k). lia. Qed.
+  Lemma pc_eq_init : forall p : pc, p = WInit \/ p <> WInit.
+  Proof. intros p. destruct p; auto; right; discriminate. Qed.
 
-  Lemma accepted_in : forall e, accepted e <> [] -> exists t k, In (EvAccept t k) e.
+  Lemma IInv_step : forall s l s', coh s -> IInv s -> pstep s l = Some s' -> IInv s'.
   Proof.
-    induction e as [|x r IH]; cbn; [congruence|]. intro H. destruct x; cbn in H; eauto 6;
-      destruct (IH H) as (t0 & k0 & Hin); eauto 6.
-  Qed.
-
-  Theorem quiescent_shape : forall progs s, reachable progs s -> pquiescent nw maxq s ->
-    forall t p th, nth_error (pcs s) t = Some p -> nth_error (threads (mon s)) t = Some th ->
-      p = WDone \/ p = CIdle [] \/
-      (p = WTake /\ st th = Waiting notEmpty /\ queue (shared (mon s)) = [] /\ running (shared (mon s)) = true) \/
-      (exists ops, p = CCall ops /\ st th = Waiting notFull /\ isFull maxq (queue (shared (mon s))) = true /\
-                   running (shared (mon s)) = true).
-  Proof.
-    intros progs s Hr Q. apply quiescent_shape_gen; auto.
-    - eapply coh_reach; eauto.
-    - eapply MInv_reach; eauto.
-    - eapply SInv_reach; eauto.
-    - eapply len_reach; eauto.
-  Qed.
-
-  Theorem exactly_once_unless_stopped : forall progs s, reachable progs s -> pquiescent nw maxq s ->
-    inhand (pcs s) = [] /\
-    (forall k, count_occ Nat.eq_dec (accepted (evs s)) k =
-               count_occ Nat.eq_dec (started (evs s)) k + count_occ Nat.eq_dec (queue (shared (mon s))) k) /\
-    (queue (shared (mon s)) <> [] -> running (shared (mon s)) = false /\ existsb is_stopsec (evs s) = true).
-  Proof.
-    intros progs s Hr Q. pose proof (coh_reach _ _ Hr) as C. pose proof (quiescent_shape _ _ Hr Q) as Sh.
-    assert (Hin : inhand (pcs s) = []).
-    { unfold inhand. apply flat_map_nil_all. intros p Hp. destruct (In_nth_error _ _ Hp) as (t & Ht).
-      destruct (nth_error (threads (mon s)) t) as [th|] eqn:Hn.
-      - destruct (Sh _ _ _ Ht Hn) as [->|[->|[(-> & _)|(ops & -> & _)]]]; reflexivity.
-      - exfalso. apply nth_error_None in Hn. destruct C as (Hlen & _).
-        assert (nth_error (pcs s) t <> None) as Hx by congruence. apply nth_error_Some in Hx. lia. }
-    split; auto. split.
-    - intros k. rewrite (accounting _ _ Hr k), Hin. cbn. lia.
-    - intros Hq. pose proof (LInv_reach _ _ Hr) as L.
-      assert (Hrf : running (shared (mon s)) = false).
-      { destruct (running (shared (mon s))) eqn:Hrun; auto. exfalso.
-        assert (Ha : accepted (evs s) <> []).
-        { rewrite (li_acct _ _ L). intro E. apply app_eq_nil in E. tauto. }
-        destruct (accepted_in _ Ha) as (t & k & Hin').
-        destruct (hi_who _ (HInv_reach _ _ Hr) _ Hin') as (_ & Hnz).
-        pose proof (len_reach _ _ Hr) as Hlen.
-        destruct (nth_error (pcs s) 0) as [p0|] eqn:Hp0; [|apply nth_error_None in Hp0; lia].
-        destruct (nth_error (threads (mon s)) 0) as [th0|] eqn:Hn0.
-        2:{ apply nth_error_None in Hn0. destruct C as (Hl & _). lia. }
-        destruct C as (_ & Hc). pose proof (Hc _ _ _ Hp0 Hn0) as Hc1.
-        destruct (Sh _ _ _ Hp0 Hn0) as [->|[->|[(-> & _ & Hq0 & _)|(ops & -> & _)]]].
-        - pose proof (di_done _ (DInv_reach _ _ Hr) 0 Hp0). congruence.
-        - cbn in Hc1. lia.
-        - congruence.
-        - cbn in Hc1. lia. }
-      split; auto. rewrite (li_flag _ _ L) in Hrf. destruct (existsb is_stopsec (evs s)); auto.
-  Qed.
-
-  Lemma prefix_nth_error : forall (A : Type) (l r : list A) k v, nth_error l k = Some v -> nth_error (l ++ r) k = Some v.
-  Proof. intros A l r k v H. rewrite nth_error_app1; auto. apply nth_error_Some. congruence. Qed.
-
-  Lemma by0 : forall e, (forall x, In x e -> match x with EvTake t _ | EvStart t _ => t = 0 | _ => True end) ->
-    taken e = taken_by 0 e /\ started e = started_by 0 e.
-  Proof.
-    induction e as [|x r IH]; intros H; [auto|].
-    destruct IH as (I1 & I2); [intros y Hy; apply H; right; auto|].
-    pose proof (H x (or_introl eq_refl)) as Hx.
-    unfold taken, taken_by, started, started_by in *. cbn [flat_map]. rewrite I1, I2.
-    destruct x; auto; subst; auto.
-  Qed.
-
-  Lemma inhand0 : forall ps ths, cohL ps ths -> nw <= 1 ->
-    inhand ps = match nth_error ps 0 with Some p => inhand1 p | None => [] end.
-  Proof.
-    intros ps ths (Hlen & Hc) Hnw. destruct ps as [|p0 r]; [reflexivity|]. cbn [nth_error]. unfold inhand. cbn [flat_map].
-    assert (E : flat_map inhand1 r = []).
-    { apply flat_map_nil_all. intros p Hp. destruct (In_nth_error _ _ Hp) as (t & Ht).
-      destruct (nth_error ths (S t)) as [th|] eqn:Hn.
-      - pose proof (Hc (S t) p th Ht Hn) as Hc1. destruct p; cbn in *; auto. lia.
-      - exfalso. apply nth_error_None in Hn. assert (nth_error r t <> None) as Hx by congruence.
-        apply nth_error_Some in Hx. cbn in Hlen. lia. }
-    rewrite E, app_nil_r. reflexivity.
-  Qed.
-
-  Theorem fifo_start_order : forall progs s, reachable progs s ->
-    (exists rest, accepted (evs s) = taken (evs s) ++ rest) /\
-    (forall i k, nth_error (taken (evs s)) i = Some k -> nth_error (accepted (evs s)) i = Some k) /\
-    (forall t, taken_by t (evs s) = started_by t (evs s) ++ inhand_at s t) /\
-    (nw <= 1 -> taken (evs s) = started (evs s) ++ inhand (pcs s)).
-  Proof.
-    intros progs s Hr. pose proof (LInv_reach _ _ Hr) as L. pose proof (HInv_reach _ _ Hr) as Hh.
-    split; [rewrite (li_acct _ _ L); eauto|]. split.
-    - intros i k Hk. rewrite (li_acct _ _ L). apply prefix_nth_error; auto.
-    - split; [apply (hi_by _ Hh)|]. intros Hnw.
-      destruct (by0 (evs s)) as (E1 & E2).
-      { intros x Hx. pose proof (hi_who _ Hh x Hx) as Hw. destruct x; auto; lia. }
-      rewrite E1, E2, (hi_by _ Hh 0), (inhand0 _ _ (coh_reach _ _ Hr) Hnw). reflexivity.
-  Qed.
-
-  Theorem on_pool_thread : forall progs s, reachable progs s ->
-    (forall t k, In (EvStart t k) (evs s) -> t < nw) /\
-    (forall t k, In (EvTake t k) (evs s) -> t < nw) /\
-    (forall t k, In (EvAccept t k) (evs s) -> nw <= t /\ nw <> 0) /\
-    (forall t k, In (EvInline t k) (evs s) -> nw = 0).
-  Proof.
-    intros progs s Hr. pose proof (hi_who _ (HInv_reach _ _ Hr)) as Hw.
-    split; [|split; [|split]]; intros t k Hin; apply (Hw _ Hin).
-  Qed.
-
-  Theorem inline_when_empty : forall progs s, reachable progs s -> nw = 0 ->
-    accepted (evs s) = [] /\ taken (evs s) = [] /\ started (evs s) = [] /\ queue (shared (mon s)) = [].
-  Proof.
-    intros progs s Hr Hz. pose proof (hi_who _ (HInv_reach _ _ Hr)) as Hw.
-    assert (Ha : accepted (evs s) = []).
-    { destruct (accepted (evs s)) as [|a0 l0] eqn:E; auto. exfalso.
-      destruct (accepted_in (evs s)) as (t1 & k1 & Hin); [congruence|]. destruct (Hw _ Hin). lia. }
-    pose proof (li_acct _ _ (LInv_reach _ _ Hr)) as Hacct. rewrite Ha in Hacct. symmetry in Hacct.
-    apply app_eq_nil in Hacct. destruct Hacct as (Ht & Hq). repeat split; auto.
-    unfold started. apply flat_map_nil_all. intros x Hx. specialize (Hw _ Hx). destruct x; auto. lia.
-  Qed.
-
-  Theorem bounded : forall progs s, reachable progs s -> 0 < maxq -> length (queue (shared (mon s))) <= maxq.
-  Proof. intros progs s Hr. apply (li_bound _ _ (LInv_reach _ _ Hr)). Qed.
-
-  (* after stop()'s first block nobody is (or ever again gets) blocked on a condition *)
-  Theorem nobody_waits_after_stop : forall progs s, reachable progs s -> running (shared (mon s)) = false ->
-    forall t th c, nth_error (threads (mon s)) t = Some th -> st th <> Waiting c.
-  Proof.
-    intros progs s Hr Hrf t th c Hn Hs. pose proof (coh_reach _ _ Hr) as C. pose proof (MInv_reach _ _ Hr) as I.
-    destruct (nth_error (pcs s) t) as [p|] eqn:Hp.
-    - assert (running (shared (mon s)) = true); [|congruence].
-      destruct (waiting_cond _ _ _ _ _ C I Hp Hn Hs) as [(_ & ->)|(ops & _ & ->)].
-      + apply (mi_bE _ I). eapply count_pos_nth; eauto. apply is_waiting_true; auto.
-      + apply (mi_bF _ I). eapply count_pos_nth; eauto. apply is_waiting_true; auto.
-    - apply nth_error_None in Hp. destruct C as (Hlen & _).
-      assert (nth_error (threads (mon s)) t <> None) as Hx by congruence. apply nth_error_Some in Hx. lia.
-  Qed.
-
-  Lemma no_spurious_after_stop : forall progs ls s s', reachable progs s -> running (shared (mon s)) = false ->
-    prun nw maxq s ls = Some s' -> pnspur ls = 0.
-  Proof.
-    intros progs. induction ls as [|l r IH]; intros s s' Hr Hrf H; [reflexivity|]. cbn in H.
-    destruct (pstep s l) as [s1|] eqn:E; [|discriminate].
-    unfold pnspur in *. cbn [filter]. destruct (p_is_spurious l) eqn:El.
-    - exfalso. destruct l as [[| |t|]| | | |]; try discriminate.
-      pose proof (pstep_sound _ _ _ E) as R. inversion R; subst.
-      eapply (nobody_waits_after_stop _ _ Hr Hrf); eauto.
-    - eapply IH; [eapply preach_step; eauto| |exact H]. eapply running_stays_false; eauto.
-  Qed.
-
-  Theorem stop_terminates : forall progs s, reachable progs s -> running (shared (mon s)) = false ->
-    (* nobody is blocked *)
-    (forall t th c, nth_error (threads (mon s)) t = Some th -> st th <> Waiting c) /\
-    (* every continuation is finite *)
-    (forall ls s', prun nw maxq s ls = Some s' -> length ls <= pmeasure nw s) /\
-    (* a continuation that cannot be extended has every worker returned, every client finished
-       and every stop() returned *)
-    (forall ls s', prun nw maxq s ls = Some s' -> (forall l, pstep s' l = None) ->
-       (forall t, t < nw -> pc_at s' t = Some WDone) /\
-       (forall t p, nw <= t -> pc_at s' t = Some p -> p = CIdle []) /\
-       (forall t, In (EvStopSec t) (evs s') -> In (EvStopRet t) (evs s'))) /\
-    (* and such a continuation exists *)
-    (exists ls s', prun nw maxq s ls = Some s' /\ forall l, pstep s' l = None).
-  Proof.
-    intros progs s Hr Hrf. pose proof (coh_reach _ _ Hr) as C.
-    assert (Hfin : forall ls s', prun nw maxq s ls = Some s' -> length ls <= pmeasure nw s).
-    { intros ls s' H. pose proof (prun_bound _ _ _ C H) as Hb. rewrite (no_spurious_after_stop _ _ _ _ Hr Hrf H) in Hb.
-      assert (length ls = pnonspur ls + pnspur ls) as El.
-      { unfold pnonspur, pnspur. clear. induction ls as [|l r IH]; cbn; auto. destruct (p_is_spurious l); cbn; lia. }
-      rewrite (no_spurious_after_stop _ _ _ _ Hr Hrf H) in El. lia. }
-    assert (Hend : forall ls s', prun nw maxq s ls = Some s' -> pquiescent nw maxq s' ->
-              (forall t, t < nw -> pc_at s' t = Some WDone) /\
-              (forall t p, nw <= t -> pc_at s' t = Some p -> p = CIdle []) /\
-              (forall t, In (EvStopSec t) (evs s') -> In (EvStopRet t) (evs s')) /\
-              (forall l, pstep s' l = None)).
-    { intros ls s' H Q. pose proof (preach_prun _ _ _ _ Hr H) as Hr'.
-      assert (Hrf' : running (shared (mon s')) = false).
-      { clear Q Hr' Hfin. revert s C Hr Hrf H. induction ls as [|l r IH]; intros s C Hr Hrf H; cbn in H.
-        - inversion H; subst; auto.
-        - destruct (pstep s l) as [s1|] eqn:E; [|discriminate].
-          eapply (IH s1); eauto; [eapply coh_step|eapply preach_step|eapply running_stays_false]; eauto. }
-      pose proof (coh_reach _ _ Hr') as C'. pose proof (quiescent_shape _ _ Hr' Q) as Sh.
-      assert (Hsh : forall t p, pc_at s' t = Some p -> p = WDone \/ p = CIdle []).
-      { intros t p Hp. destruct (nth_error (threads (mon s')) t) as [th|] eqn:Hn.
-        - destruct (Sh _ _ _ Hp Hn) as [->|[->|[(_ & _ & _ & Hx)|(ops & _ & _ & _ & Hx)]]]; auto; congruence.
-        - exfalso. apply nth_error_None in Hn. destruct C' as (Hlen & _).
-          assert (nth_error (pcs s') t <> None) as Hx by (unfold pc_at in Hp; congruence). apply nth_error_Some in Hx. lia. }
-      assert (Hcoh : forall t p, pc_at s' t = Some p -> (p = WDone -> t < nw) /\ (p = CIdle [] -> nw <= t)).
-      { intros t p Hp. destruct (nth_error (threads (mon s')) t) as [th|] eqn:Hn.
-        - destruct C' as (_ & Hc). pose proof (Hc _ _ _ Hp Hn) as Hc1.
-          split; intros ->; cbn in Hc1; tauto.
-        - exfalso. apply nth_error_None in Hn. destruct C' as (Hlen & _).
-          assert (nth_error (pcs s') t <> None) as Hx by (unfold pc_at in Hp; congruence). apply nth_error_Some in Hx. lia. }
-      split; [|split; [|split]].
-      - intros t Ht. pose proof (len_reach _ _ Hr') as Hlen.
-        destruct (pc_at s' t) as [p|] eqn:Hp; [|unfold pc_at in Hp; apply nth_error_None in Hp; lia].
-        destruct (Hsh _ _ Hp) as [->| ->]; auto. destruct (Hcoh _ _ Hp) as (_ & Hx). specialize (Hx eq_refl). lia.
-      - intros t p Ht Hp. destruct (Hsh _ _ Hp) as [->| ->]; auto. destruct (Hcoh _ _ Hp) as (Hx & _). specialize (Hx eq_refl). lia.
-      - intros t Hin. destruct (di_stop _ (DInv_reach _ _ Hr') _ Hin) as [Hx|(i & ops & Hp)]; auto.
-        destruct (Hsh _ _ Hp); discriminate.
-      - intros l. destruct (pstep s' l) as [s2|] eqn:E; auto. exfalso.
-        pose proof (Q _ _ E) as Hl. destruct l as [[| |t|]| | | |]; try discriminate.
-        pose proof (pstep_sound _ _ _ E) as R. inversion R; subst.
-        eapply (nobody_waits_after_stop _ _ Hr' Hrf'); eauto. }
-    split; [apply (nobody_waits_after_stop _ _ Hr Hrf)|]. split; [exact Hfin|]. split.
-    - intros ls s' H Hno. destruct (Hend _ _ H) as (H1 & H2 & H3 & _); auto.
-      intros l s2 E. rewrite Hno in E. discriminate.
-    - destruct (preaches_quiescence s C) as (ls & s' & Hrun & _ & Q). exists ls, s'. split; auto.
-      destruct (Hend _ _ Hrun Q) as (_ & _ & _ & Hx). exact Hx.
-  Qed.
-
-  Theorem nothing_starts_after_stop_returns : forall progs s, reachable progs s ->
-    Forall after_stop_ok (after is_stopret (evs s)) /\
-    (existsb is_stopret (evs s) = true ->
-       running (shared (mon s)) = false /\ forall j, j < nw -> pc_at s j = Some WDone).
-  Proof.
-    intros progs s Hr. pose proof (SInv_reach _ _ Hr) as SI. split; [apply (si_after _ SI)|apply (si_ret _ SI)].
-  Qed.
-
-  Theorem run_after_stop_noop : forall progs s, reachable progs s ->
-    Forall not_accept (after is_stopsec (evs s)) /\
-    running (shared (mon s)) = negb (existsb is_stopsec (evs s)) /\
-    (* a run(k) section evaluated when running_ is false changes nothing and queues nothing *)
-    (forall k, running (shared (mon s)) = false ->
-       pool_body maxq (PRun k) (shared (mon s)) = Ret (shared (mon s)) RRejected []).
-  Proof.
-    intros progs s Hr. pose proof (LInv_reach _ _ Hr) as L. split; [apply (li_frozen _ _ L)|]. split; [apply (li_flag _ _ L)|].
-    intros k Hrf. unfold pool_body, run_waits. rewrite Hrf, andb_false_r. reflexivity.
-  Qed.
-
-  (* quiescence is reached from every reachable state; the bound on schedules with spurious wake-ups *)
-  Theorem quiescence_reached : forall progs s, reachable progs s ->
-    (forall ls s', prun nw maxq s ls = Some s' -> pmeasure nw s' + pnonspur ls <= pmeasure nw s + 2 * pnspur ls) /\
-    (exists ls s', prun nw maxq s ls = Some s' /\ pnspur ls = 0 /\ reachable progs s' /\ pquiescent nw maxq s').
-  Proof.
-    intros progs s Hr. pose proof (coh_reach _ _ Hr) as C. split.
-    - intros ls s' H. eapply prun_bound; eauto.
-    - destruct (preaches_quiescence s C) as (ls & s' & Hrun & Hsp & Q). exists ls, s'. repeat split; auto.
-      eapply preach_prun; eauto.
-  Qed.
-
-  (* ================================================================ every run() call is decided exactly once *)
-  Definition pend1 (v : pc * thread pop) : list task := prog_runs (snd v) ++ runs_of (pc_ops (fst v)).
-
-  Lemma pending_views : forall s, pending s = flat_map pend1 (views s).
-  Proof. reflexivity. Qed.
-
-  Lemma count_flat_map_upd : forall A (f : A -> list task) vs t v v' k, nth_error vs t = Some v ->
-    count_occ Nat.eq_dec (flat_map f (upd t v' vs)) k + count_occ Nat.eq_dec (f v) k =
-    count_occ Nat.eq_dec (flat_map f vs) k + count_occ Nat.eq_dec (f v') k.
-  Proof.
-    intros A f. induction vs as [|h r IH]; intros [|t] v v' k H; cbn in H; try discriminate.
-    - inversion H; subst. cbn [upd flat_map]. rewrite !count_occ_app. unfold task in *. lia.
-    - cbn [upd flat_map]. rewrite !count_occ_app. specialize (IH _ _ v' k H). unfold task in *. lia.
-  Qed.
-
-  Lemma pending_wakes : forall ps ths ths', wakes ths ths' ->
-    flat_map pend1 (combine ps ths') = flat_map pend1 (combine ps ths).
-  Proof.
-    intros ps ths ths' H. revert ps. induction H as [|a b l l' Hk Hw IH]; intros [|p ps]; cbn; auto.
-    rewrite IH. unfold pend1, prog_runs. cbn [fst snd]. rewrite (wk_prog _ _ Hk). reflexivity.
-  Qed.
-
-  Definition decided (e : list event) (k : task) : nat :=
-    count_occ Nat.eq_dec (accepted e) k + count_occ Nat.eq_dec (rejected e) k + count_occ Nat.eq_dec (inlined e) k.
-
-  Lemma decided_app : forall e e' k, decided (e ++ e') k = decided e k + decided e' k.
-  Proof.
-    intros e e' k. unfold decided, accepted, rejected, inlined. rewrite !flat_map_app, !count_occ_app. unfold task in *. lia.
-  Qed.
-
-  Definition PInv (progs : list (list uop)) (s : psys) : Prop :=
-    forall k, decided (evs s) k + count_occ Nat.eq_dec (pending s) k = count_occ Nat.eq_dec (submitted progs) k.
-
-  Lemma PInv_step : forall progs s l s', coh s -> PInv progs s -> pstep s l = Some s' -> PInv progs s'.
-  Proof.
-    intros progs s l s' C I H k. specialize (I k). pose proof (pstep_sound _ _ _ H) as R. rewrite pending_views in *.
-    assert (Hsame : forall t v v', nth_error (views s) t = Some v -> pend1 v' = pend1 v ->
-              count_occ Nat.eq_dec (flat_map pend1 (upd t v' (views s))) k = count_occ Nat.eq_dec (flat_map pend1 (views s)) k).
-    { intros t v v' Hv He. pose proof (count_flat_map_upd _ pend1 _ _ _ v' k Hv) as Hc. rewrite He in Hc. lia. }
-    assert (Hth : forall t, pc_at s t <> None -> exists th, nth_error (threads (mon s)) t = Some th).
-    { intros t Hp. destruct (nth_error (threads (mon s)) t) eqn:E; eauto. exfalso. apply nth_error_None in E.
-      destruct C as (Hlen & _). apply nth_error_Some in Hp. lia. }
-    inversion R; subst; cbn [evs]; unfold views at 1; cbn [pcs mon threads].
-    - pose proof (cohL_pc_at _ _ _ _ C H0) as Hpc. rewrite (views_upd_th _ _ _ _ _ Hpc H0).
-      rewrite (Hsame _ (nth t (pcs s) WDone, th)); auto. apply nth_error_combine; auto.
-      unfold pend1, prog_runs. cbn [fst snd prog]. rewrite H2. reflexivity.
-    - pose proof (cohL_pc_at _ _ _ _ C H0) as Hpc. rewrite (views_upd_th _ _ _ _ _ Hpc H0).
-      rewrite (Hsame _ (nth t (pcs s) WDone, th)); auto. apply nth_error_combine; auto.
-      unfold pend1, prog_runs. cbn [fst snd prog]. rewrite H2. reflexivity.
-    - pose proof (cohL_pc_at _ _ _ _ C H0) as Hpc. rewrite (views_upd_th _ _ _ _ _ Hpc H0).
-      rewrite (Hsame _ (nth t (pcs s) WDone, th)); auto. apply nth_error_combine; auto.
-    - pose proof (cohL_pc_at _ _ _ _ C H0) as Hpc. rewrite (views_upd_th _ _ _ _ _ Hpc H0).
-      rewrite (Hsame _ (nth t (pcs s) WDone, th)); auto. apply nth_error_combine; auto.
-    - (* return from a section *)
-      pose proof (cohL_pc_at _ _ _ _ C H0) as Hpc.
-      assert (Hv : nth_error (views s) t = Some (nth t (pcs s) WDone, th)) by (apply nth_error_combine; auto).
-      rewrite (pending_wakes _ _ _ (apply_signals_wakes sg picks _)), combine_upd. fold (views s).
-      pose proof (count_flat_map_upd _ pend1 _ _ _ (after_ret (nth t (pcs s) WDone) r, mkThread rest Idle) k Hv) as Hc.
-      rewrite decided_app.
-      assert (E1 : pend1 (nth t (pcs s) WDone, th) =
-                   (match o with PRun k0 => [k0] | _ => [] end) ++ pend1 (after_ret (nth t (pcs s) WDone) r, mkThread rest Idle)).
-      { unfold pend1, prog_runs. cbn [fst snd prog]. rewrite H2, pc_ops_after_ret. cbn [flat_map]. rewrite <- app_assoc. reflexivity. }
-      rewrite E1, count_occ_app in Hc.
-      assert (E2 : decided (ev_of t o r) k = count_occ Nat.eq_dec (match o with PRun k0 => [k0] | _ => [] end) k).
-      { destruct o as [k0| | |]; destruct r as [| |[k1|]| |]; unfold decided; cbn;
-        repeat match goal with |- context [Nat.eq_dec ?a ?b] => destruct (Nat.eq_dec a b) end; lia. }
-      rewrite E2. unfold task in *. lia.
-    - destruct (set_prog_spec _ _ _ _ _ _ _ H2) as (th & Hn & Hs & ->). cbn [threads].
-      destruct (views_upd_both s t WLoop th WTake (mkThread [PTake] Idle) H0 Hn) as (Ev & Hv). rewrite Ev.
-      rewrite (Hsame _ _ _ Hv); auto.
-      destruct C as (_ & Hc). destruct (Hc _ _ _ H0 Hn) as (_ & _ & Hq). unfold pend1, prog_runs. cbn [fst snd prog pc_ops].
-      rewrite Hq. reflexivity.
-    - destruct (Hth t) as (th & Hn); [congruence|]. rewrite (views_upd_pc _ _ _ _ _ H0 Hn).
-      rewrite (Hsame _ (WLoop, th)); auto. apply nth_error_combine; auto.
-    - destruct (Hth t) as (th & Hn); [congruence|]. rewrite (views_upd_pc _ _ _ _ _ H0 Hn).
-      rewrite decided_app. rewrite (Hsame _ (WGot k0, th)); auto; [|apply nth_error_combine; auto].
-      unfold decided at 2. cbn. lia.
-    - destruct (Hth t) as (th & Hn); [congruence|]. rewrite (views_upd_pc _ _ _ _ _ H0 Hn).
-      assert (Hv : nth_error (views s) t = Some (CIdle (URun k0 :: ops), th)) by (apply nth_error_combine; auto).
-      pose proof (count_flat_map_upd _ pend1 _ _ _ (CIdle ops, th) k Hv) as Hc.
-      assert (E1 : count_occ Nat.eq_dec (pend1 (CIdle (URun k0 :: ops), th)) k =
-                   count_occ Nat.eq_dec [k0] k + count_occ Nat.eq_dec (pend1 (CIdle ops, th)) k).
-      { unfold pend1. cbn [fst snd pc_ops runs_of flat_map]. rewrite !count_occ_app. unfold task in *. lia. }
-      rewrite decided_app. assert (E2 : decided [EvInline t k0] k = count_occ Nat.eq_dec [k0] k)
-        by (unfold decided; cbn; repeat match goal with |- context [Nat.eq_dec ?a ?b] => destruct (Nat.eq_dec a b) end; lia).
-      rewrite E2. unfold task in *. lia.
-    - destruct (set_prog_spec _ _ _ _ _ _ _ H2) as (th & Hn & Hs & ->). cbn [threads].
-      destruct (views_upd_both s t _ th (snd (call_of uo ops)) (mkThread [fst (call_of uo ops)] Idle) H0 Hn) as (Ev & Hv).
-      rewrite Ev. rewrite (Hsame _ _ _ Hv); auto.
-      destruct C as (_ & Hc). destruct (Hc _ _ _ H0 Hn) as (_ & _ & Hq). unfold pend1, prog_runs. cbn [fst snd prog].
-      rewrite Hq. destruct uo; reflexivity.
-    - destruct (Hth t) as (th & Hn); [congruence|]. rewrite (views_upd_pc _ _ _ _ _ H0 Hn).
-      rewrite (Hsame _ (CJoin i ops, th)); auto. apply nth_error_combine; auto.
-    - destruct (Hth t) as (th & Hn); [congruence|]. rewrite (views_upd_pc _ _ _ _ _ H0 Hn).
-      rewrite decided_app. rewrite (Hsame _ (CJoin i ops, th)); auto; [|apply nth_error_combine; auto].
-      unfold decided at 2. cbn. lia.
-  Qed.
-
-  Lemma PInv_init : forall progs, PInv progs (pinit nw progs).
-  Proof.
-    intros progs k. unfold decided, pending, pinit. cbn [evs pcs mon threads init_sys accepted rejected inlined flat_map count_occ].
-    rewrite map_app, combine_app_eq by (rewrite map_length, !repeat_length; reflexivity). rewrite flat_map_app, count_occ_app.
-    assert (E1 : flat_map (fun x : pc * thread pop => prog_runs (snd x) ++ runs_of (pc_ops (fst x)))
-                   (combine (repeat WLoop nw) (map (fun p : list pop => mkThread p Idle) (repeat [] nw))) = []).
-    { apply flat_map_nil_all. intros [p th] Hin. pose proof (in_combine_l _ _ _ _ Hin) as Hp.
-      pose proof (in_combine_r _ _ _ _ Hin) as Ht. apply repeat_spec in Hp. apply in_map_iff in Ht.
-      destruct Ht as (q & <- & Hq). apply repeat_spec in Hq. subst. reflexivity. }
-    rewrite E1. cbn [count_occ Nat.add]. unfold submitted. f_equal. rewrite map_map.
-    induction progs as [|p r IH]; cbn [map combine flat_map]; auto. rewrite IH. reflexivity.
-  Qed.
-
-  Theorem PInv_reach : forall progs s, preach nw maxq (pinit nw progs) s -> PInv progs s.
-  Proof.
-    intros progs s Hr. assert (coh s /\ PInv progs s) as (_ & I); auto. revert s Hr. apply preach_inv.
-    - split; [apply coh_init|apply PInv_init].
-    - intros s l s' _ (C & I) H. split; [eapply coh_step|eapply PInv_step]; eauto.
-  Qed.
-
-  (* every run(k) of every client program is decided exactly once (accepted, rejected because the pool
-     was stopped, or run inline) or still pending; distinct submitted tasks start at most once *)
-  Theorem every_run_decided_once : forall progs s, preach nw maxq (pinit nw progs) s ->
-    (forall k, count_occ Nat.eq_dec (accepted (evs s)) k + count_occ Nat.eq_dec (rejected (evs s)) k +
-               count_occ Nat.eq_dec (inlined (evs s)) k + count_occ Nat.eq_dec (pending s) k =
-               count_occ Nat.eq_dec (submitted progs) k) /\
-    (NoDup (submitted progs) -> forall k, count_occ Nat.eq_dec (started (evs s)) k + count_occ Nat.eq_dec (inlined (evs s)) k <= 1).
-  Proof.
-    intros progs s Hr. pose proof (PInv_reach _ _ Hr) as I. split; [exact I|].
-    intros Hnd k. specialize (I k). unfold decided in I. pose proof (at_most_once _ _ Hr k) as Ha.
-    rewrite (NoDup_count_occ Nat.eq_dec) in Hnd. specialize (Hnd k). unfold task in *. lia.
+    intros s l s' C [Fr On Pa Fi] H.
+    destruct (pstep_pc _ _ _ C H) as [(Ep & Ee)|(t & p & p' & ev & Hn & Ep & Ee & Ht)].
+    - constructor; unfold pc_at in *; rewrite ?Ep, ?Ee; auto.
+    - assert (Hoth : forall u, u <> t -> pc_at s' u = pc_at s u) by (intros; eapply pc_at_step; eauto).
+      assert (Hme : pc_at s' t = Some p') by (eapply pc_at_step_eq; eauto).
+      assert (Hold : pc_at s t = Some p) by exact Hn.
+      assert (Hby := ptrans_by _ _ _ _ _ _ Ht).
+      assert (Hlt : forall q, (q = WTake \/ q = WLoop \/ q = WInit \/ (exists k, q = WGot k)) -> p = q -> t < nw).
+      { intros q Hq ->. destruct C as (Hlen & Hc).
+        destruct (nth_error (threads (mon s)) t) as [th|] eqn:E.
+        - pose proof (Hc _ _ _ Hn E) as Hc1. destruct Hq as [->|[->|[->|(k & ->)]]]; cbn in Hc1; tauto.
+        - exfalso. apply nth_error_None in E. assert (nth_error (pcs s) t <> None) as Hx by congruence.
+          apply nth_error_Some in Hx. lia. }
+      constructor.
+      + intros u Hu Hin. rewrite Ee in Hin. apply in_app_or in Hin.
+        destruct (Nat.eq_dec u t) as [->|Hne].
+        * rewrite Hme in Hu. inversion Hu; subst. inv_trans Ht.
+        * rewrite (Hoth _ Hne) in Hu. destruct Hin as [Hin|Hin]; [exact (Fr _ Hu Hin)|].
+          apply Hby in Hin. cbn in Hin. congruence.
+      + intros u. rewrite Ee. unfold inits. rewrite flat_map_app, count_occ_app. fold (inits (evs s)). fold (inits ev).
+        inversion Ht; subst; cbn [inits flat_map count_occ app]; try (specialize (On u); lia).
+        destruct (Nat.eq_dec t u) as [->|Hne]; [|specialize (On u); lia].
+        assert (count_occ Nat.eq_dec (inits (evs s)) u = 0); [|lia].
+        apply count_occ_not_In. rewrite inits_in. apply Fr. exact Hold.
+      + intros u q Hu Hlt' Hq. rewrite Ee. apply in_or_app.
+        destruct (Nat.eq_dec u t) as [->|Hne].
+        * rewrite Hme in Hu. inversion Hu; subst.
+          destruct (pc_eq_init p) as [->|Hp].
+          -- right. inversion Ht; subst. left. reflexivity.
+          -- left. eapply Pa; eauto.
+        * rewrite (Hoth _ Hne) in Hu. left. eapply Pa; eauto.
+      + intros x Hin. rewrite Ee in Hin. apply in_app_or in Hin. destruct Hin as [Hin|Hin].
+        * specialize (Fi _ Hin). destruct x; auto; rewrite Ee; apply in_or_app; auto.
+        * inversion Ht; subst; cbn in Hin; try tauto; destruct Hin as [<-|[]]; auto; rewrite Ee; apply in_or_app; left.
+          -- apply (Pa t WTake Hold); [apply (Hlt WTake); auto|discriminate].
+          -- apply (Pa t (WGot k) Hold); [apply (Hlt (WGot k)); eauto 6|discriminate].
   Qed.
 End Pool.
-
-(* ================================================================ link to the generated guards (Gen_C15) *)
-(* the body of the model with every guard replaced by the one regenerated from ThreadPool.cc *)
-Definition gen_body (maxq : nat) (o : pop) (s : pool) : outcome pool pres :=
-  let full := gen_isFull (Z.of_nat maxq) (Z.of_nat (length (queue s))) in
-  let empty := match queue s with [] => true | _ => false end in
-  match o with
-  | PRun k =>
-      if gen_run_waits full (running s) then Block notFull
-      else if gen_run_rejects (running s) then Ret s RRejected []
-      else Ret (mkPool (queue s ++ [k]) (running s)) RAccepted [Notify notEmpty]
-  | PTake =>
-      if gen_take_waits empty (running s) then Block notEmpty
-      else if gen_take_pops empty then
-             match queue s with
-             | k :: q' => Ret (mkPool q' (running s)) (RTask (Some k))
-                            (if gen_take_notifies (Z.of_nat maxq) then [Notify notFull] else [])
-             | [] => Ret s (RTask None) []
-             end
-           else Ret s (RTask None) []
-  | PStop => Ret (mkPool (queue s) false) RUnit [NotifyAll notEmpty; NotifyAll notFull]
-  | PSize => Ret s (RSize (length (queue s))) []
-  end.
-
-(* the link lemmas are proved by case analysis on the comparisons / booleans, so that a harmless
-   rewriting of a guard (commuted operands, ...) still checks while a changed guard does not *)
-Ltac cmp_cases :=
-  repeat match goal with
-         | |- context [Z.gtb ?a ?b] => rewrite (Z.gtb_ltb a b)
-         | |- context [Z.geb ?a ?b] => rewrite (Z.geb_leb a b)
-         end;
-  repeat match goal with
-         | |- context [Z.ltb ?a ?b] => destruct (Z.ltb_spec a b)
-         | |- context [Z.leb ?a ?b] => destruct (Z.leb_spec a b)
-         | |- context [Z.eqb ?a ?b] => destruct (Z.eqb_spec a b)
-         | |- context [Nat.ltb ?a ?b] => destruct (Nat.ltb_spec a b)
-         | |- context [Nat.leb ?a ?b] => destruct (Nat.leb_spec a b)
-         end;
-  cbn; try reflexivity; try lia.
-
-Lemma link_isFull : forall m (q : list task), gen_isFull (Z.of_nat m) (Z.of_nat (length q)) = isFull m q.
-Proof. intros m q. unfold gen_isFull, isFull. cmp_cases. Qed.
-
-Lemma link_take_notifies : forall m, gen_take_notifies (Z.of_nat m) = (0 <? m).
-Proof. intros m. unfold gen_take_notifies. cmp_cases. Qed.
-
-Lemma link_take_waits : forall (q : list task) r,
-  gen_take_waits (match q with [] => true | _ => false end) r = take_waits q r.
-Proof. intros [|k q] [|]; reflexivity. Qed.
-
-Lemma link_take_pops : forall b, gen_take_pops b = negb b.
-Proof. intros [|]; reflexivity. Qed.
-
-Lemma link_run_waits : forall m (q : list task) r,
-  gen_run_waits (gen_isFull (Z.of_nat m) (Z.of_nat (length q))) r = run_waits m q r.
-Proof. intros m q r. unfold run_waits. rewrite <- link_isFull. destruct (gen_isFull _ _), r; reflexivity. Qed.
-
-Lemma link_run_rejects : forall r, gen_run_rejects r = negb r.
-Proof. intros [|]; reflexivity. Qed.
-
-Lemma link_worker_loops : forall r, gen_worker_loops r = r.
-Proof. intros [|]; reflexivity. Qed.
-
-Theorem link_body : forall maxq o s, gen_body maxq o s = pool_body maxq o s.
-Proof.
-  intros maxq o s. unfold gen_body, pool_body. destruct o as [k| | |]; auto.
-  - rewrite link_run_waits, link_run_rejects. reflexivity.
-  - rewrite link_take_waits, link_take_notifies, link_take_pops.
-    destruct (queue s); cbn [negb]; destruct (take_waits _ _); reflexivity.
-Qed.
